@@ -5,15 +5,14 @@
    time), clock times in the int range, and - for the statements that mention "the log's
    order" - no two distinct entries with the same (clock id, time)  ([tie_free]: on such logs
    NoZeroes(LastWriteWins) and Compare are the same strict total order; with ties the default
-   order is not an order at all, see C19 / K2).
+   order is not an order at all, see C19 / K2 / K4).
 
-   Proved for the code as it is:   the min-clock invariant, the window theorem for EVERY
-   schedule (top n of the log <= fetch result <= log), the manifest loader for n >= 1 and the
-   entry-hash loader for every n >= 0.   Refuted for the code as it is (witnesses below, also found by the harness on the
-   real implementation): n = 0 from a manifest, the JSON loader (never trims), NewFromEntry
-   (may drop a supplied entry).   The [_after_fix] theorems are about the repaired variants
-   [load_multihash_fixed], [load_json_fixed], [from_entry_values_fixed] (notes/C10.md), NOT about
-   the current code.                                                                          *)
+   The loader models follow log_io.go as of commit ba56479.  Proved: the min-clock invariant,
+   the window theorem for EVERY schedule (top n of the log <= fetch result <= log), and for all
+   four loaders and every n >= 0 the exact outcome: min(max(n,k),size) entries, all supplied ones
+   plus the most recent others, the same for every schedule and concurrency.
+   [C10_regression_*]: the three deviations of the loaders BEFORE that commit
+   ([*_before_fix] in Model/Fetcher.v), kept as machine-checked regression witnesses.        *)
 From Coq Require Import List ZArith NArith Bool Lia Permutation Sorted.
 From IpfsLog Require Import Model.Order Model.Fetcher Proofs.SortProofs Proofs.FetcherBasics
   Proofs.FetcherProofs Proofs.LoaderProofs Proofs.LimitProofs Proofs.WindowProofs Proofs.LimitLoaders.
@@ -48,7 +47,10 @@ Section C10.
     (forall h, In h starts <-> In h (map fe_hash heads)) ->
     reachable_state cfg starts s -> terminal s -> st_timedout s = false ->
     window S n (st_results s).
-  Proof. intros Hst Hr T Ht. exact (fetch_window cfg S heads id WF Hlim Hclock starts s Hst Hr T Ht). Qed.
+  Proof.
+    intros Hst Hr T Ht.
+    exact (fetch_window cfg S heads (log_wf_closure cfg S heads id WF) Hlim Hclock starts s Hst Hr T Ht).
+  Qed.
 
   Hypothesis Htimes : times_ok S.
   Hypothesis Hties : tie_free S.
@@ -66,16 +68,28 @@ Section C10.
     reflexivity.
   Qed.
 
-  (* ---- NewFromMultihash, n >= 1: exactly the last n of the log's order, min(n,size) entries ---- *)
-  Theorem C10_manifest mheads s : 1 <= n ->
+  (* ---- NewFromMultihash (k = 0), every n >= 0: exactly the last n of the log's order ---- *)
+  Theorem C10_manifest mheads s :
     (forall h, In h mheads <-> In h (map fe_hash heads)) ->
     reachable_state cfg mheads s -> terminal s -> st_timedout s = false ->
     lg_entries (load_multihash id mheads n (st_results s)) = last_n n (sort_go cmp_lww false S) /\
     zlen (lg_entries (load_multihash id mheads n (st_results s))) = Z.min n (zlen S).
   Proof.
-    intros Hn Hm Hr T Ht. pose proof (wf_nodup _ _ _ _ WF) as Hnd.
-    pose proof (limited_multihash S Hnd Htimes Hties id mheads n _ Hn (C10_fetch_window mheads s Hm Hr T Ht)) as E.
-    split; [exact E|]. rewrite E. apply last_n_sorted_length. lia.
+    intros Hm Hr T Ht. pose proof (wf_nodup _ _ _ _ WF) as Hnd.
+    pose proof (limited_multihash S Hnd Htimes Hties id mheads n _ Hlim (C10_fetch_window mheads s Hm Hr T Ht)) as E.
+    split; [exact E|]. rewrite E. now apply last_n_sorted_length.
+  Qed.
+
+  (* ---- NewFromJSON (k = 0), every n >= 0 ---- *)
+  Theorem C10_json jheads s :
+    (forall h, In h jheads <-> In h (map fe_hash heads)) ->
+    reachable_state cfg jheads s -> terminal s -> st_timedout s = false ->
+    lg_entries (load_json id n (st_results s)) = last_n n (sort_go cmp_clock false S) /\
+    zlen (lg_entries (load_json id n (st_results s))) = Z.min n (zlen S).
+  Proof.
+    intros Hm Hr T Ht. pose proof (wf_nodup _ _ _ _ WF) as Hnd.
+    pose proof (limited_json S Hnd Htimes Hties id n _ Hlim (C10_fetch_window jheads s Hm Hr T Ht)) as E.
+    split; [exact E|]. rewrite E. now apply last_n_sorted_length.
   Qed.
 
   (* ---- NewFromEntryHash (single-headed log, k = 1), every n >= 0: the last max(n,1) of the
@@ -90,53 +104,62 @@ Section C10.
     intros Hh Hnn Hr T Ht. pose proof (wf_nodup _ _ _ _ WF) as Hnd.
     assert (WF1 : log_wf cfg S [h] id) by (rewrite <- Hh; exact WF).
     pose proof (fetch_window_single cfg S h id WF1 Hlim Hclock Hnn s Hr T Ht) as HW.
-    pose proof (limited_entryhash_all S id n _ Hnd Htimes Hties Hlim HW) as E.
+    pose proof (limited_entryhash S id n _ Hnd Htimes Hties Hlim HW) as E.
     split; [exact E|]. rewrite E. apply last_n_sorted_length. lia.
   Qed.
-
-  (* ---- repaired loaders (NOT the current code): every n >= 0 ---- *)
-  Theorem C10_manifest_after_fix mheads s :
-    (forall h, In h mheads <-> In h (map fe_hash heads)) ->
-    reachable_state cfg mheads s -> terminal s -> st_timedout s = false ->
-    lg_entries (load_multihash_fixed id mheads n (st_results s)) = last_n n (sort_go cmp_lww false S) /\
-    zlen (lg_entries (load_multihash_fixed id mheads n (st_results s))) = Z.min n (zlen S).
-  Proof.
-    intros Hm Hr T Ht. pose proof (wf_nodup _ _ _ _ WF) as Hnd.
-    pose proof (limited_multihash_fixed S Hnd Htimes Hties id mheads n _ Hlim (C10_fetch_window mheads s Hm Hr T Ht)) as E.
-    split; [exact E|]. rewrite E. now apply last_n_sorted_length.
-  Qed.
-
-  Theorem C10_json_after_fix jheads s :
-    (forall h, In h jheads <-> In h (map fe_hash heads)) ->
-    reachable_state cfg jheads s -> terminal s -> st_timedout s = false ->
-    lg_entries (load_json_fixed id n (st_results s)) = last_n n (sort_go cmp_clock false S) /\
-    zlen (lg_entries (load_json_fixed id n (st_results s))) = Z.min n (zlen S).
-  Proof.
-    intros Hm Hr T Ht. pose proof (wf_nodup _ _ _ _ WF) as Hnd.
-    pose proof (limited_json_fixed S Hnd Htimes Hties id n _ Hlim (C10_fetch_window jheads s Hm Hr T Ht)) as E.
-    split; [exact E|]. rewrite E. now apply last_n_sorted_length.
-  Qed.
-
-  (* NewFromEntry repaired: the caller supplies the head entries and asks for m; the fetcher runs
-     with length n = max(m, k): all supplied entries, then the most recent others, min(max(m,k),size)
-     entries in total, whatever the schedule *)
-  Theorem C10_entries_after_fix m s :
-    0 <= m -> n = Z.max m (zlen heads) -> NoDup (map fe_hash heads) ->
-    reachable_state cfg (map fe_hash heads) s -> terminal s -> st_timedout s = false ->
-    from_entry_values_fixed m heads (st_results s) =
-      heads ++ last_n (n - zlen heads)
-                 (sort_go cmp_clock false (filter (fun e => negb (has_hash (fe_hash e) heads)) S)) /\
-    zlen (from_entry_values_fixed m heads (st_results s)) = Z.min (Z.max m (zlen heads)) (zlen S).
-  Proof.
-    intros Hm Hn Hnd Hr T Ht. pose proof (wf_nodup _ _ _ _ WF) as HndS.
-    assert (Hin : incl heads S) by (intros e He; now apply (wf_heads_in_S cfg S heads id WF)).
-    assert (HW : window S (Z.max m (zlen heads)) (st_results s)).
-    { rewrite <- Hn. apply (C10_fetch_window (map fe_hash heads) s); auto. intros x. reflexivity. }
-    split.
-    - rewrite Hn. exact (fixed_entry_values S HndS Htimes Hties heads Hin Hnd m _ Hm HW).
-    - exact (fixed_entry_count S HndS Htimes Hties heads Hin Hnd m _ Hm HW).
-  Qed.
 End C10.
+
+(* ---- NewFromEntry, for EVERY list of supplied entries and every m >= 0.  S is the stored
+   next-closure of the supplied entries ([closure_wf]; for the heads of a log it is the log,
+   [C10_entries_of_heads]).  The caller supplies [source] (k = its length, duplicates allowed) and
+   asks for m; the fetcher runs with length max(m,k).  Whatever the schedule: every supplied entry,
+   then the most recent others, min(max(m,k),size) entries in total. ---- *)
+Section C10Entries.
+  Variable cfg : config.
+  Variable S : list fentry.
+  Variable source : list fentry.
+  Hypothesis CW : closure_wf cfg S source.
+  Hypothesis Hclock : forall e e', In e S -> In e' S -> In (fe_hash e') (fe_next e) -> fe_time e' < fe_time e.
+  Hypothesis Htimes : times_ok S.
+  Hypothesis Hties : tie_free S.
+
+  Theorem C10_entries m s :
+    0 <= m -> cf_length cfg = Z.max m (zlen source) ->
+    reachable_state cfg (map fe_hash source) s -> terminal s -> st_timedout s = false ->
+    let k := zlen source in
+    let src := ordered_map source in
+    from_entry_values m source (st_results s) =
+      src ++ last_n (Z.max m k - zlen src)
+               (sort_go cmp_clock false (filter (fun e => negb (has_hash (fe_hash e) src)) S)) /\
+    zlen (from_entry_values m source (st_results s)) = Z.min (Z.max m k) (zlen S) /\
+    (forall e, In e source -> In e (from_entry_values m source (st_results s))).
+  Proof.
+    intros Hm Hn Hr T Ht. pose proof (cw_nodup _ _ _ CW) as HndS. pose proof (cw_source _ _ _ CW) as Hin.
+    assert (Hlim : 0 <= cf_length cfg) by (pose proof (zlen_nonneg source); lia).
+    assert (HW : window S (Z.max m (zlen source)) (st_results s)).
+    { rewrite <- Hn. apply (fetch_window cfg S source CW Hlim Hclock (map fe_hash source) s); auto.
+      intros x. reflexivity. }
+    cbv zeta. split; [|split].
+    - exact (entry_values S HndS Htimes Hties source Hin m _ Hm HW).
+    - exact (entry_values_count S HndS Htimes Hties source Hin m _ Hm HW).
+    - intros e He. exact (entry_values_supplied S HndS Htimes Hties source Hin m _ e Hm HW He).
+  Qed.
+End C10Entries.
+
+(* the usual case: the supplied entries are the heads of a stored log *)
+Theorem C10_entries_of_heads cfg S heads id m s :
+  log_wf cfg S heads id ->
+  (forall e e', In e S -> In e' S -> In (fe_hash e') (fe_next e) -> fe_time e' < fe_time e) ->
+  times_ok S -> tie_free S ->
+  0 <= m -> cf_length cfg = Z.max m (zlen heads) ->
+  reachable_state cfg (map fe_hash heads) s -> terminal s -> st_timedout s = false ->
+  zlen (from_entry_values m heads (st_results s)) = Z.min (Z.max m (zlen heads)) (zlen S) /\
+  (forall e, In e heads -> In e (from_entry_values m heads (st_results s))).
+Proof.
+  intros WF Hc Ht Hf Hm Hn Hr T Hto.
+  destruct (C10_entries cfg S heads (log_wf_closure cfg S heads id WF) Hc Ht Hf m s Hm Hn Hr T Hto)
+    as [_ [H2 H3]]. split; assumption.
+Qed.
 
 (* ------------------------------------------------------------------------------------------ *)
 (* A stored log satisfying every hypothesis: three replicas A (clock id 1), B (2), C (3);
@@ -212,20 +235,21 @@ Proof.
 Qed.
 
 (* ------------------------------------------------------------------------------------------ *)
-(* refutations: the current code, on the log above                                             *)
+(* regression witnesses: the loaders BEFORE commit ba56479, on the log above                   *)
 
 (* n = 0 from a manifest: the fetcher admits the newest head, entrySlice(entries, -0) returns
    everything: 1 entry instead of min(max(0,0),8) = 0 *)
-Theorem C10_manifest_n0_refuted :
+Theorem C10_regression_manifest_n0 :
   exists s, reachable_state (c10_cfg 0) (map fe_hash c10_heads) s /\ terminal s /\ st_timedout s = false /\
-    zlen (lg_entries (load_multihash 7 (map fe_hash c10_heads) 0 (st_results s))) = 1 /\
+    zlen (lg_entries (load_multihash_before_fix 7 (map fe_hash c10_heads) 0 (st_results s))) = 1 /\
+    zlen (lg_entries (load_multihash 7 (map fe_hash c10_heads) 0 (st_results s))) = 0 /\
     Z.min (Z.max 0 0) (zlen c10_S) = 0.
 Proof.
   destruct (run_seq (c10_cfg 0) 100 (init_state (c10_cfg 0) (map fe_hash c10_heads))) as [s|] eqn:E;
     [|vm_compute in E; discriminate].
   exists s. split; [eapply run_seq_reachable; exact E|].
   vm_compute in E. injection E as <-. split; [apply terminalb_iff; reflexivity|].
-  split; reflexivity || (split; reflexivity).
+  repeat (split; [reflexivity|]). reflexivity.
 Qed.
 
 (* the JSON loader never trims: with n = 1, when the older head c2 completes first the fetcher
@@ -233,11 +257,12 @@ Qed.
 Definition c10_json_trace : list event :=
   [EvDispatch 15; EvDispatch 22; EvReturn 22 true; EvComplete 22; EvReturn 15 true; EvComplete 15].
 
-Theorem C10_json_no_trim_refuted :
+Theorem C10_regression_json_no_trim :
   exists s s', reachable_state (c10_cfg 1) [15%N; 22%N; 1%N] s /\ terminal s /\ st_timedout s = false /\
     reachable_state (c10_cfg 1) [15%N; 22%N; 1%N] s' /\ terminal s' /\ st_timedout s' = false /\
-    zlen (lg_entries (load_json 7 1 (st_results s))) = 5 /\
-    zlen (lg_entries (load_json 7 1 (st_results s'))) = 1 /\
+    zlen (lg_entries (load_json_before_fix 7 1 (st_results s))) = 5 /\
+    zlen (lg_entries (load_json_before_fix 7 1 (st_results s'))) = 1 /\
+    zlen (lg_entries (load_json 7 1 (st_results s))) = 1 /\
     Z.min (Z.max 1 0) (zlen c10_S) = 1.
 Proof.
   destruct (run_from (c10_cfg 1) (init_state (c10_cfg 1) [15%N; 22%N; 1%N]) c10_json_trace) as [s1|] eqn:E1;
@@ -259,12 +284,12 @@ Qed.
 
 (* NewFromEntry with the three heads and n = 4: the window [c2 b3 b4 b5] misses the supplied a0;
    a0 is put back by dropping the window's oldest element - the supplied c2 *)
-Theorem C10_fromentry_drops_supplied_refuted :
+Theorem C10_regression_fromentry_drops_supplied :
   exists s, reachable_state (c10_cfg 4) (map fe_hash c10_heads) s /\ terminal s /\ st_timedout s = false /\
     cf_length (c10_cfg 4) = entry_fetch_len 4 c10_heads /\
-    In c10_c2 c10_heads /\ ~ In c10_c2 (from_entry_values 4 c10_heads (st_results s)) /\
-    map fe_hash (from_entry_values 4 c10_heads (st_results s)) = [1%N; 13%N; 14%N; 15%N] /\
-    map fe_hash (from_entry_values_fixed 4 c10_heads (st_results s)) = [15%N; 22%N; 1%N; 14%N].
+    In c10_c2 c10_heads /\ ~ In c10_c2 (from_entry_values_before_fix 4 c10_heads (st_results s)) /\
+    map fe_hash (from_entry_values_before_fix 4 c10_heads (st_results s)) = [1%N; 13%N; 14%N; 15%N] /\
+    map fe_hash (from_entry_values 4 c10_heads (st_results s)) = [15%N; 22%N; 1%N; 14%N].
 Proof.
   destruct (run_seq (c10_cfg 4) 100 (init_state (c10_cfg 4) (map fe_hash c10_heads))) as [s|] eqn:E;
     [|vm_compute in E; discriminate].
@@ -279,14 +304,14 @@ Print Assumptions C10_min_clock_invariant.
 Print Assumptions C10_fetch_window.
 Print Assumptions C10_schedule_independent.
 Print Assumptions C10_manifest.
+Print Assumptions C10_json.
 Print Assumptions C10_entryhash.
-Print Assumptions C10_manifest_after_fix.
-Print Assumptions C10_json_after_fix.
-Print Assumptions C10_entries_after_fix.
+Print Assumptions C10_entries.
+Print Assumptions C10_entries_of_heads.
 Print Assumptions C10_example_wf.
 Print Assumptions C10_example_clock.
 Print Assumptions C10_example_times.
 Print Assumptions C10_example_tie_free.
-Print Assumptions C10_manifest_n0_refuted.
-Print Assumptions C10_json_no_trim_refuted.
-Print Assumptions C10_fromentry_drops_supplied_refuted.
+Print Assumptions C10_regression_manifest_n0.
+Print Assumptions C10_regression_json_no_trim.
+Print Assumptions C10_regression_fromentry_drops_supplied.
